@@ -72,7 +72,9 @@ def run(F, R, tier):
         ok, det = False, why
         if rows is not None:
             rows = [(e, "Err" if str(r).startswith("v1::Err") else ("Ok" if str(r).startswith("v1::Ok") else str(r)[:30])) for e, r in rows]
-            roles = [(r"^data\.len\(\) < 24$", "short"), (r"^PCAP_MAGIC_US == " + MAGIC + "$", "us"), (r"^PCAP_MAGIC_NS == " + MAGIC + "$", "ns")]
+            # the header size written as a literal or as a named constant of that value
+            n24 = "(24|%s)" % "|".join(sorted(re.escape(H.last(k)) for k, c in F.consts.items() if c.get("val") == 24) or ["24"])
+            roles = [(r"^data\.len\(\) < %s$" % n24, "short"), (r"^PCAP_MAGIC_US == " + MAGIC + "$", "us"), (r"^PCAP_MAGIC_NS == " + MAGIC + "$", "ns")]
             doms = {"short": (True, False), "us": (True, False), "ns": (True, False)}
             ok, det = D.check(rows, roles, doms, lambda e: None if (e["us"] and e["ns"]) else ("Err" if (e["short"] or not (e["us"] or e["ns"])) else "Ok"))
         R.ob("magic-test", "accepts exactly the microsecond and nanosecond magics", ok and us == 0xA1B2C3D4 and ns == 0xA1B23C4D,
@@ -90,6 +92,10 @@ def run(F, R, tier):
             if e2.get("k") == "call" and e2.get("args") and H.local_id(H.strip(e2["args"][0])) in lets_:
                 # `let written = bytes.len(); .. Ok(written)`
                 leaves.append("v1::Ok(%s)" % H.render(H.strip(lets_[H.local_id(H.strip(e2["args"][0]))])))
+            elif e2.get("k") == "mcall" and e2["m"] == "map" and len(e2.get("args", [])) == 1 and H.strip(e2["args"][0]).get("k") == "closure" \
+                    and "std::io::Error" in (e2.get("ty") or ""):
+                # `written.map(|()| bytes.len())`: Ok(bytes.len()) once the write succeeded, the write's error otherwise
+                leaves.append("v1::Ok(%s)" % H.render(H.strip(H.strip(e2["args"][0])["body"])))
             else:
                 leaves.append(H.render(e))
         R.ob("whole-record-write", "write_all(&bytes) per handle kind; returns bytes.len()", ok and "v1::Ok(bytes.len())" in leaves,
@@ -115,6 +121,10 @@ def run(F, R, tier):
                 n_read += 1
                 nxt = B.blocks[t["t"]]["term"] if t.get("t") is not None else {}
                 ok = nxt.get("k") == "call" and (nxt.get("callee") or "").endswith("Try>::branch")
+                if not ok and not t["dest"]["p"] and t["dest"]["l"] == 0 and nxt.get("k") in ("return", "drop", "goto") and "{closure" in q:
+                    # a closure whose value is the read's result (`|buf| reader.read_exact(buf)`): the result goes to the
+                    # caller of the closure, whose call is itself an io::Result producer under C22's propagation rule
+                    ok = True
                 R.ob("read-exact-propagated", "next_packet read_exact #%d" % n_read, ok, "result is consumed by `?`", F.loc(F.fns[q], t.get("line")))
         # two reads per record (header, payload), once per handle kind or once in a shared generic helper
         R.floor("read_exact calls in next_packet", n_read, 2)
